@@ -126,6 +126,19 @@ def site_guard(body, call_bb, callee_is_self, call_term):
         steps = [st for st in counter_steps(body, g["place"]) if body.dominates((st[0], st[1]), (call_bb, -1))]
         if not steps:
             continue
+        # the count must still be held when the call is made: a step in the opposite direction (the `depth -= 1` that undoes the
+        # `depth += 1`) may not lie on a path from the counted step to the call without the counted step being taken again
+        base = steps[0][2][:3]
+        undone = False
+        for ob, oi, oop in counter_steps(body, g["place"]):
+            if oop[:3] == base:
+                continue
+            if any(body.dominates((st[0], st[1]), (ob, oi)) for st in steps) and \
+                    (call_bb in body.reach_from(ob, avoid={st[0] for st in steps} - {ob}) and (ob != call_bb or oi < 10 ** 9)):
+                if ob == call_bb or call_bb in body.reach_from(ob, avoid={st[0] for st in steps if st[0] != ob}):
+                    undone = True
+        if undone:
+            continue
         kind, l, fields = g["place"]
         # the counter must travel with the recursion
         passed = False
